@@ -3,6 +3,7 @@ package props
 import (
 	"crypto/sha256"
 	"fmt"
+	"os"
 	"sort"
 	"strings"
 
@@ -19,6 +20,22 @@ type c08case struct {
 	Spec      Spec `json:"spec"`
 	Combiners bool `json:"machinecombiners"`
 	WithArg   bool `json:"resultarg"` // the program consumes a Result of an earlier invocation
+	// Cache programs: bitmask of shard files present when the driver compiles, and when the
+	// worker compiles (files appear and vanish between the two, e.g. written by other workers).
+	CacheShards   int `json:"cacheshards,omitempty"`
+	DriverPresent int `json:"driverpresent,omitempty"`
+	WorkerPresent int `json:"workerpresent,omitempty"`
+}
+
+func c08setFiles(dir string, n, mask int) {
+	for s := 0; s < n; s++ {
+		p := cachePath(dir, s, n)
+		if mask&(1<<uint(s)) != 0 {
+			os.WriteFile(p, []byte("x"), 0644)
+		} else {
+			os.Remove(p)
+		}
+	}
 }
 
 // allTasks walks the graph from the roots (through Deps and phase groups).
@@ -222,6 +239,18 @@ func runC08case(t *vf.T, c c08case) {
 		results[inv0.Index()] = res
 		argA = res
 	}
+	var cacheDir string
+	if c.CacheShards > 0 {
+		cacheDir, _ = os.MkdirTemp("", "c08-")
+		defer os.RemoveAll(cacheDir)
+		for i := range sp.Nodes {
+			if sp.Nodes[i].Op == "cache" || sp.Nodes[i].Op == "cachepartial" {
+				sp.Nodes[i].Path = cacheDir + "/c"
+			}
+		}
+		c08setFiles(cacheDir, c.CacheShards, c.DriverPresent)
+		sig = fmt.Sprintf("cache-program driverfiles!=workerfiles:%v", c.DriverPresent != c.WorkerPresent)
+	}
 	inv := exec.VerifMakeInvocation(ProgFunc, sp, argA, argB)
 	tasks, slice, err := inv.Compile(c.Combiners)
 	if err != nil {
@@ -249,10 +278,21 @@ func runC08case(t *vf.T, c c08case) {
 		return
 	}
 	// what a worker does: gob round trip, substitute references, invoke, compile
-	enc, err := inv.Encode()
+	// the executor ships the invocation stored in the tasks (task.Invocation), not the
+	// driver's local variable
+	shipped := inv
+	if tasks[0].Name.InvIndex == inv.Index() {
+		shipped = exec.VerifTaskInvocation(tasks[0])
+	}
+	enc, err := shipped.Encode()
 	if err != nil {
 		t.Violate(sig+" encode-error", err.Error())
 		return
+	}
+	if c.CacheShards > 0 {
+		// the file system changes before the worker compiles
+		c08setFiles(cacheDir, c.CacheShards, c.WorkerPresent)
+		t.Count("cache_programs", 1)
 	}
 	winv, err := exec.VerifDecodeInvocation(enc, results)
 	if err != nil {
@@ -310,6 +350,22 @@ func runC08(r *vf.Runner) {
 		}
 		c.Spec = genSpec(rnd.Fork(), o)
 		r.Case(c, func(t *vf.T) { runC08case(t, c) })
+	}
+	// cache operators: the driver's view of the shard files is frozen into the invocation; the
+	// worker must compile the same graph whatever files exist when it compiles
+	for _, kind := range []string{"cache", "cachepartial"} {
+		for shards := 1; shards <= 3; shards++ {
+			for dp := 0; dp < 1<<uint(shards); dp++ {
+				for wp := 0; wp < 1<<uint(shards); wp++ {
+					// the cache operator sits after a shuffle, so that cached shards (dependencies dropped)
+					// and computed shards (dependencies wired) compile differently
+					sp := Spec{Nodes: []PNode{{Op: "readerfunc", Shards: shards, Rows: 9, Out: []string{"int", "int64"}, Salt: 1, Mod: 5}, {Op: "reduce", In: []int{0}, Fold: "sum"},
+						{Op: kind, In: []int{1}}, {Op: "filter", In: []int{2}, P: 3, Salt: 2}}}
+					c := c08case{Spec: sp, CacheShards: shards, DriverPresent: dp, WorkerPresent: wp}
+					r.Case(c, func(t *vf.T) { runC08case(t, c) })
+				}
+			}
+		}
 	}
 	// cross-process: a fixed list of programs is compiled by every child; digests are compared
 	fixed := r.Rand("fixed-does-not-depend-on-seed")
